@@ -45,6 +45,8 @@ extern "C" {
   void vfstub_randomm(mpz_ptr r, mpz_srcptr m) { vfh_coin_mod(r, m); }
   // [0, 2^size)
   void vfstub_randomb(mpz_ptr r, unsigned long size) { vfh_coin_bits(r, size); }
+  // raw machine word
+  unsigned long vfstub_random_ui(void) { vf_assume(++vfh_draws <= H_MAXDRAWS); return vf_nondet_u64(); }
 }
 #define VFH_COIN_REPLACE {'tmcg_mpz_srandomm': 'vfstub_randomm'}
 #endif
